@@ -655,3 +655,14 @@ def win_arg_alias(n: size, A: f32[n + 2, n + 2], b: f32[n]):
     for i in seq(0, n):
         A[0, i] = b[i]
 ''')
+
+add("triangular_lo", '''
+@proc
+def triangular_lo(n: size, A: f32[n, n], x: f32[n]):
+    for i in seq(0, n):
+        for j in seq(i, n):
+            x[i] += A[i, j]
+    for i in seq(0, n):
+        for j in seq(0, n - i):
+            A[i, j] = x[j]
+''')
